@@ -77,13 +77,17 @@ def firstCollision : List Claimed → Option (Claimed × Claimed)
     | some o => some (c, o)
     | none => firstCollision rest
 
+/-- The pairwise comparison and the error it raises (addresses_non_overlapping.rs:14-38). -/
+def reportCollision {α : Type} (claimed : List Claimed) (ok : α) : M α :=
+  match firstCollision claimed with
+  | some (a, b) => .error (lirErr "address_collision" [displayName a, displayName b] [a.address])
+  | none => .ok ok
+
 def addressesNonOverlapping (n : Names) (l : Lir) : M Lir := do
   let root ← match l.blocks.find? (·.root) with
     | some b => pure b | none => throw (.panic "root_expect")
   let fuel := 2 * l.blocks.length + 4
   let claimed ← claimedOfBlock n l.blocks fuel root 0 []
-  match firstCollision claimed with
-  | some (a, b) => throw (lirErr "address_collision" [displayName a, displayName b] [a.address])
-  | none => pure l
+  reportCollision claimed l
 
 end DDV.Gen
